@@ -17,7 +17,8 @@ RULE = ('programs (<=60 ops) over the union of the other checks\' '
         'and inherited __adapt__), interface rebasing, registry mutation '
         '(register / unregister / subscribe / unsubscribe / rebuild / '
         '__bases__) and every lookup entry point with defaults and '
-        'non-string names, super proxies, builtins, functions, objects whose '
+        'non-string names, super proxies (plain and of a user-defined '
+        'subclass of super), builtins, functions, objects whose '
         '__provides__ is None / a spec / raises, __providedBy__ that raises '
         'or is junk; the same program is executed by this worker '
         '(PURE_PYTHON=1) and by a persistent peer process (C accelerator) '
@@ -76,7 +77,8 @@ def enumerate_cases(cfg):
     registrations in place and every call made twice (cold and warm)"""
     objs = [['x', k] for k in ODD] + [['o', 0], ['o', 1], ['o', 2], ['o', 3],
                                       ['c', 0], ['c', 2], ['i', 0],
-                                      ['s', 1, 0], ['s', 2, 1]]
+                                      ['s', 1, 0], ['s', 2, 1],
+                                      ['S', 1, 0], ['S', 2, 1]]
     base = [['register', 0, [['R']], ['I', 0], '', 0, False],
             ['register', 1, [['I', 0]], ['I', 1], '', 1, False],
             ['register', 0, [['C', 0]], ['I', 0], 'a', 2, True],
@@ -198,6 +200,7 @@ def objref():
         st.tuples(st.just('c'), IDX).map(list),
         st.tuples(st.just('i'), IDX).map(list),
         st.tuples(st.just('s'), IDX, st.integers(0, 3)).map(list),
+        st.tuples(st.just('S'), IDX, st.integers(0, 3)).map(list),
         st.tuples(st.just('x'), st.sampled_from(ODD)).map(list),
         st.tuples(st.just('x'), st.sampled_from(ODD)).map(list))
 
